@@ -245,3 +245,7 @@ func (c *Ctx) RequireMapWriters(rule, typ, field string, allowed map[string]stri
 		c.Machinef("anchor: no map writer of %s.%s found", typ, field)
 	}
 }
+
+type typesStruct = types.Struct
+
+func sortStrings(s []string) { sort.Strings(s) }
